@@ -10,7 +10,7 @@ import pipeline as pl
 from world import Rng, World
 
 ID = "C11"
-LEAN_MODULES = ["QtyModel.Props.C11", "QtyModel.Props.TieAnalyze"]
+LEAN_MODULES = ["QtyModel.Props.C11", "QtyModel.Props.TieAnalyze", "QtyModel.Props.TieCodegen", "QtyModel.Props.TieConstants"]
 HARNESS_GROUPS = ()
 RULE = ("seeded random well-formed definitions (1..10 units, identifiers with digits/acronyms/underscores, symbols incl. "
         "non-ASCII, integer/float/exponent literal forms, optional SI prefix and doc, attributes in random order, with / "
